@@ -588,7 +588,7 @@ package account
 //@ ghost mtrie (Array {common.Address} Bytes)
 //@ spec abstract fn regObj(a common.Address) Int
 //@ spec abstract fn emptyObj(o Int) bool
-//@ spec abstract fn stRootOf(o Int) common.Hash
+//@ spec abstract fn stRootOf(o Int, content BytesMap) common.Hash
 //@ spec abstract fn encAcc(a Account) Bytes
 
 //@ func ext_registryLoad
@@ -612,7 +612,7 @@ package account
 //@ func accountObject.updateRoot
 //@   option trusted
 //@   requires ao != nil
-//@   ensures ao.data.Root == stRootOf(ref(ao))
+//@   ensures ao.data.Root == stRootOf(ref(ao), @select(ghost(stor), ref(ao)))
 //@   modifies ao.data.Root, ao.trie, ghost(flushed)
 
 //@ func AccountDB.updateAccountObject
